@@ -35,7 +35,7 @@ def snap(x: Any):
                 _plain(x.stylesheet), _plain(x.meta), x.all_files,
                 None if x.head is None else snap(x.head))
     if isinstance(x, MetadataNode):
-        return ("Meta", type(x).__name__)
+        return ("Meta", type(x).__name__, getattr(x, "label", None), tuple(getattr(x, "marks", ())))
     if isinstance(x, HTMLDocument):
         return ("Doc", snap(x._content), _plain(x._html_attr_args))
     if isinstance(x, (list, tuple)):
@@ -69,6 +69,19 @@ def graph_ids(x: Any, acc=None):
             graph_ids(c, acc)
     elif isinstance(x, MetadataNode):
         acc[id(x)] = x
+        # what a dependency holds is reachable from the tree too: its head (a child list with tags),
+        # and the lists / dicts describing its files
+        from htmltools import HTMLDependency
+        if isinstance(x, HTMLDependency):
+            if x.head is not None:
+                graph_ids(x.head, acc)
+            for lst in (x.script, x.stylesheet, x.meta):
+                if isinstance(lst, list) and lst:
+                    acc[id(lst)] = lst
+                    for d in lst:
+                        acc[id(d)] = d
+            if isinstance(x.source, dict):
+                acc[id(x.source)] = x.source
     return acc
 
 
